@@ -164,6 +164,21 @@ def gen_mesh(rng, force_valid=True):
     mesh["elnodal"]["STRESS_CAUCHY"] = [[_val(rng) for _ in range(6)] for _ in range(n_rows)]
     mesh["elnodal"]["E"] = [[_val(rng) for _ in range(6)] for _ in range(n_rows)]
     mesh["elnodal"]["CUSTOM2"] = [[_val(rng) for _ in range(2)] for _ in range(n_rows)]
+    if rng.random() < 0.3:
+        # some columns hold whole numbers and are kept in an integer dtype in the user's frame
+        # (a displacement component that is identically zero, a constrained direction, ...)
+        icols = []
+        for src in ("DISPLACEMENT", "STRESS_CAUCHY", "CUSTOM2", "E"):
+            if rng.random() < 0.5:
+                ci = rng.choice([0, 0, 1])
+                icols.append(SRC_COLUMNS[src][ci])
+                if src in mesh["nodal"]:
+                    for n in mesh["nodal"][src]:
+                        mesh["nodal"][src][n][ci] = float(rng.randint(-3, 3))
+                else:
+                    for row in mesh["elnodal"][src]:
+                        row[ci] = float(rng.randint(-3, 3))
+        mesh["int_columns"] = icols
     return mesh
 
 
@@ -181,7 +196,38 @@ SRC_COLUMNS = {"DISPLACEMENT": ["dx", "dy", "dz"], "TEMP": ["T"],
                "E": ["E11", "E22", "E33", "E12", "E13", "E23"], "CUSTOM2": ["c1", "c2"]}
 
 
+def expand_procedural(spec):
+    """A big strip of triangles written as a rule (the trace stays small): n_nodes nodes, ids with a gap,
+    every node used, 2-D without z."""
+    n = int(spec["n_nodes"])
+    gap = int(spec.get("id_gap", 1))
+    ids = [1 + gap * i for i in range(n)]
+    elements = []
+    e = 1
+    for i in range(0, n - 2, 2):
+        elements.append([e, [ids[i], ids[i + 1], ids[i + 2]]])
+        e += 1 + (gap > 1)
+    if n % 2 == 0:
+        elements.append([e, [ids[n - 3], ids[n - 2], ids[n - 1]]])
+    coords = {str(nid): [0.5 * i, 0.25 * (i % 7)] for i, nid in enumerate(ids)}
+    disp = {str(nid): [float(i % 5), 0.125 * (i % 3), -1.0 * (i % 2)] for i, nid in enumerate(ids)}
+    n_rows = 3 * len(elements)
+    return {"z": "none", "elements": elements, "coords": coords,
+            "nodal": {"DISPLACEMENT": disp, "TEMP": {str(nid): [float(i % 11)] for i, nid in enumerate(ids)}},
+            "elnodal": {"CUSTOM2": [[float(r % 13), 0.5 * (r % 4)] for r in range(n_rows)]}}
+
+
 def generate(prop, rng, tier):
+    if rng.random() < 0.004:
+        # sizes around powers of two (block-wise writes, 16-bit counters): one big mesh, a short history
+        n = rng.choice([65535, 65536, 65537, 65538, 131073])
+        ops = [{"op": "add_geometry", "geom": "big", "mesh": "m0"},
+               {"op": "add_set", "kind": "n", "geom": "big", "mesh": "m0", "ids": [1, 1 + 2 * (n // 3)], "name": "two"},
+               {"op": "add_variable", "state": "S", "geom": "big", "mesh": "m0", "var": "DISPLACEMENT", "source": "DISPLACEMENT",
+                "columns": None, "location": None, "drop_columns": False, "block_perm": None},
+               {"op": "read"}]
+        return {"world": NAME, "meshes": {"m0": {"procedural": {"n_nodes": n, "id_gap": 2}}}, "ops": ops, "faults": None,
+                "kept_frames": rng.random() < 0.5, "level_order": "en", "interleave": None}
     n_mesh = rng.choice([1, 2, 2, 3])
     meshes = {"m%d" % i: gen_mesh(rng) for i in range(n_mesh)}
     ops = []
@@ -341,6 +387,9 @@ def mesh_frame(mesh, sabotage=None):
             col += [0.0] * (len(rows) - n_real)
             data[c] = col
     df = pd.DataFrame(data, index=idx, dtype=np.float64)
+    for c in mesh.get("int_columns", []):
+        if c in df.columns and np.array_equal(np.round(df[c].to_numpy()), df[c].to_numpy()):
+            df[c] = df[c].astype(np.int64)
     if sabotage == "drop_y":
         df = df.drop(columns=["y"])
     return df
@@ -734,7 +783,9 @@ def _features(mesh):
 
 
 def _run(trace, out, log, d, seam):
-    meshes = trace["meshes"]
+    meshes = {k: (expand_procedural(v["procedural"]) if "procedural" in v else v) for k, v in trace["meshes"].items()}
+    if any("procedural" in v for v in trace["meshes"].values()):
+        out.count("probe:big_mesh")
     ops = trace["ops"]
     path = os.path.join(d, "f.vmap")
     try:
@@ -976,6 +1027,12 @@ def shrink(prop, trace):
         yield t
     # shrink meshes: drop elements
     for mk, m in trace["meshes"].items():
+        if "procedural" in m:
+            if m["procedural"]["n_nodes"] > 9:
+                t = copy.deepcopy(trace)
+                t["meshes"][mk]["procedural"]["n_nodes"] = 9
+                yield t
+            continue
         els = m["elements"]
         if len(els) > 1:
             for j in range(len(els)):
@@ -992,6 +1049,8 @@ def shrink(prop, trace):
                 yield t
     # simplify values
     for mk, m in trace["meshes"].items():
+        if "procedural" in m:
+            continue
         t = copy.deepcopy(trace)
         mm = t["meshes"][mk]
         changed = False
